@@ -509,6 +509,13 @@ Proof.
   - (* StreamRead *) dm; auto. apply ext_streams; assumption.
   - (* PullBg *) dm; auto; apply ext_cons; assumption.
   - (* Join *) dm; auto. apply ext_cons; assumption.
+  - (* push pass *)
+    destruct (find_sub sub (sv_subs sv)) as [s|]; simpl; auto.
+    apply ext_subs; auto. apply upd_sub_skel. intros s1.
+    eapply evolves_trans; [apply (evolves_pull 1000 (sv_now sv) s1)|].
+    apply evolves_fold_left. intros x [l0 o]. cbn [fst snd].
+    destruct o; try apply evolves_refl; try apply evolves_modify.
+    match goal with |- context [if ?b then _ else _] => destruct b end; [apply evolves_ack|apply evolves_modify].
 Qed.
 
 Lemma init_ctl : ctl_inv init_server.
